@@ -1,7 +1,10 @@
 (* Proofs/Lexer_proofs.v — lemmas about Model/Lexer.v. *)
-From RJ Require Import Base.Outcome Model.Token Model.Utf8 Model.Lexer.
+From RJ Require Import Base.Outcome Model.Token Model.Utf8 Model.Lexer Proofs.Utf8_proofs.
 From Coq Require Import Lia.
 Local Open Scope N_scope.
+
+(* ------------------------------------------------------------------ *)
+(* lex_filter                                                          *)
 
 Definition non_trivia (t : token) : bool := negb (is_trivia (tok_kind t)).
 
@@ -21,3 +24,859 @@ Qed.
 Theorem lex_filter input :
   lex_all false input = omap (filter non_trivia) (lex_all true input).
 Proof. apply lex_loop_filter. Qed.
+
+(* ------------------------------------------------------------------ *)
+(* cursors                                                             *)
+
+(* c' is c moved forward over the bytes l *)
+Definition ext_by (l : list N) (c c' : cur) : Prop :=
+  rest c = l ++ rest c' /\ pos c' = pos c + N.of_nat (length l).
+Definition ext (c c' : cur) : Prop := exists l, ext_by l c c'.
+Definition sext (c c' : cur) : Prop := exists l, l <> [] /\ ext_by l c c'.
+
+Definition wfc (len : N) (c : cur) : Prop := pos c + N.of_nat (length (rest c)) = len.
+
+Lemma ext_refl c : ext c c.
+Proof. exists []. split; [reflexivity|cbn; lia]. Qed.
+
+Lemma ext_by_trans l1 l2 a b c : ext_by l1 a b -> ext_by l2 b c -> ext_by (l1 ++ l2) a c.
+Proof.
+  intros [H1 P1] [H2 P2]. split.
+  - rewrite H1, H2, app_assoc. reflexivity.
+  - rewrite P2, P1, app_length. lia.
+Qed.
+
+Lemma ext_trans a b c : ext a b -> ext b c -> ext a c.
+Proof. intros [l1 H1] [l2 H2]. exists (l1 ++ l2). eapply ext_by_trans; eassumption. Qed.
+
+Lemma sext_ext a b : sext a b -> ext a b.
+Proof. intros [l [_ H]]. exists l. exact H. Qed.
+
+Lemma sext_ext_trans a b c : sext a b -> ext b c -> sext a c.
+Proof.
+  intros [l1 [N1 H1]] [l2 H2]. exists (l1 ++ l2). split.
+  - destruct l1; [congruence|discriminate].
+  - eapply ext_by_trans; eassumption.
+Qed.
+
+Lemma ext_sext_trans a b c : ext a b -> sext b c -> sext a c.
+Proof.
+  intros [l1 H1] [l2 [N2 H2]]. exists (l1 ++ l2). split.
+  - destruct l1; [exact N2|discriminate].
+  - eapply ext_by_trans; eassumption.
+Qed.
+
+Lemma ext_wfc len a b : ext a b -> wfc len a -> wfc len b.
+Proof. intros [l [H P]] W. unfold wfc in *. rewrite H, app_length in W. lia. Qed.
+
+Lemma ext_pos a b : ext a b -> pos a <= pos b.
+Proof. intros [l [_ P]]. lia. Qed.
+
+Lemma sext_pos a b : sext a b -> pos a < pos b.
+Proof. intros [l [Hn [_ P]]]. destruct l; [congruence|]. cbn [length] in P. lia. Qed.
+
+Lemma ext_len a b : ext a b -> (length (rest b) <= length (rest a))%nat.
+Proof. intros [l [H _]]. rewrite H, app_length. lia. Qed.
+
+Lemma sext_len a b : sext a b -> (length (rest b) < length (rest a))%nat.
+Proof. intros [l [Hn [H _]]]. rewrite H, app_length. destruct l; [congruence|cbn; lia]. Qed.
+
+Lemma ext_bytes a b : ext a b -> bytes_ok (rest a) -> bytes_ok (rest b).
+Proof. intros [l [H _]] B. rewrite H in B. apply Forall_app in B. tauto. Qed.
+
+Lemma wfc_pos_le len c : wfc len c -> pos c <= len.
+Proof. unfold wfc. lia. Qed.
+
+(* ---- the eat_* helpers ---- *)
+Lemma eat_any_byte_ext c b c' : eat_any_byte c = Some (b, c') -> ext_by [b] c c'.
+Proof.
+  unfold eat_any_byte. destruct (rest c) as [|x r] eqn:E; intros H; inversion H; subst.
+  split; cbn; [exact E|lia].
+Qed.
+
+Lemma eat_any_byte_none c : eat_any_byte c = None -> rest c = [].
+Proof. unfold eat_any_byte. destruct (rest c); [reflexivity|discriminate]. Qed.
+
+Lemma eat_byte_if_ext p c c' : eat_byte_if p c = Some c' -> exists b, p b = true /\ ext_by [b] c c'.
+Proof.
+  unfold eat_byte_if. destruct (rest c) as [|x r] eqn:E; [discriminate|].
+  destruct (p x) eqn:Hp; intros H; inversion H; subst. exists x. split; [exact Hp|].
+  split; cbn; [exact E|lia].
+Qed.
+
+Lemma eat_byte_ext b c c' : eat_byte b c = Some c' -> ext_by [b] c c'.
+Proof.
+  intros H. apply eat_byte_if_ext in H as [x [Hx E]]. apply N.eqb_eq in Hx. subst. exact E.
+Qed.
+
+Lemma eat_map_byte_ext {R} (f : N -> option R) c x c' :
+  eat_map_byte f c = Some (x, c') -> exists b, f b = Some x /\ ext_by [b] c c'.
+Proof.
+  unfold eat_map_byte. destruct (rest c) as [|y r] eqn:E; [discriminate|].
+  destruct (f y) eqn:Hf; intros H; inversion H; subst. exists y. split; [exact Hf|].
+  split; cbn; [exact E|lia].
+Qed.
+
+Lemma strip_prefix_app s : forall r r', strip_prefix s r = Some r' -> r = s ++ r'.
+Proof.
+  induction s as [|x s IH]; intros r r' H; cbn in *; [inversion H; reflexivity|].
+  destruct r as [|y r]; [discriminate|]. destruct (N.eqb_spec x y); [|discriminate].
+  subst. f_equal. apply IH, H.
+Qed.
+
+Lemma eat_slice_ext s c c' : eat_slice s c = Some c' -> ext_by s c c'.
+Proof.
+  unfold eat_slice. destruct (strip_prefix s (rest c)) as [r'|] eqn:E; intros H; inversion H; subst.
+  split; cbn; [apply strip_prefix_app, E|reflexivity].
+Qed.
+
+Lemma eat_while_from_ext p : forall r ps,
+  exists l, Forall (fun b => p b = true) l /\
+            ext_by l {| pos := ps; rest := r |} (eat_while_from p ps r).
+Proof.
+  induction r as [|b r IH]; intros ps; cbn [eat_while_from].
+  - exists []. split; [constructor|]. split; cbn; [reflexivity|lia].
+  - destruct (p b) eqn:Hp.
+    + destruct (IH (ps + 1)) as [l [Hl [H1 H2]]]. exists (b :: l). split; [constructor; assumption|].
+      split; cbn [rest pos app length] in *; [f_equal; exact H1|lia].
+    + exists []. split; [constructor|]. split; cbn; [reflexivity|lia].
+Qed.
+
+Lemma eat_while_ext p c : exists l, Forall (fun b => p b = true) l /\ ext_by l c (eat_while p c).
+Proof. destruct c as [ps r]. apply eat_while_from_ext. Qed.
+
+Lemma ext_by_ext l a b : ext_by l a b -> ext a b.
+Proof. intros H. exists l. exact H. Qed.
+
+Lemma ext_by_sext l a b : l <> [] -> ext_by l a b -> sext a b.
+Proof. intros N H. exists l. split; assumption. Qed.
+
+Lemma bytes_between_ext l a b : ext_by l a b -> bytes_between a b = l.
+Proof.
+  intros [H _]. unfold bytes_between. rewrite H, app_length.
+  replace (length l + length (rest b) - length (rest b))%nat with (length l) by lia.
+  apply firstn_app_exact || (rewrite firstn_app, firstn_all, Nat.sub_diag; cbn; apply app_nil_r).
+Qed.
+
+(* ------------------------------------------------------------------ *)
+(* outcomes of the sub-lexers                                          *)
+Section Specs.
+Variable len : N.
+
+Definition located (e : lex_error) : Prop :=
+  fst (err_span e) <= snd (err_span e) /\ snd (err_span e) <= len.
+
+(* Ok with a post-condition, or a located error; never a panic, never out of fuel *)
+Definition good {A} (P : A -> Prop) (r : res A) : Prop :=
+  match r with
+  | Ok a => P a
+  | Err e => located e
+  | Panic _ => False
+  | OutOfFuel => False
+  end.
+
+Lemma good_bind {A B} (Q : A -> Prop) (P : B -> Prop) (x : res A) (f : A -> res B) :
+  good Q x -> (forall a, Q a -> good P (f a)) -> good P (obind x f).
+Proof. destruct x; cbn; auto. Qed.
+
+Lemma good_mono {A} (P Q : A -> Prop) (r : res A) :
+  good P r -> (forall a, P a -> Q a) -> good Q r.
+Proof. destruct r; cbn; auto. Qed.
+
+Lemma make_span_ok s e : s <= e -> e <= len -> make_span len s e = Ok (s, e).
+Proof.
+  intros H1 H2. unfold make_span.
+  replace (s <=? e) with true by (symmetry; apply N.leb_le; lia).
+  replace (len <? s) with false by (symmetry; apply N.ltb_ge; lia).
+  replace (len <? e) with false by (symmetry; apply N.ltb_ge; lia). reflexivity.
+Qed.
+
+Lemma good_fail {A} (P : A -> Prop) k s e : s <= e -> e <= len -> good P (fail len k s e).
+Proof. intros H1 H2. unfold fail. rewrite make_span_ok by assumption. cbn. split; assumption. Qed.
+
+Lemma usub_ok a b : b <= a -> usub a b = Ok (a - b).
+Proof. intros H. unfold usub. replace (a <? b) with false by (symmetry; apply N.ltb_ge; lia). reflexivity. Qed.
+
+Lemma commit_ok start c k : start <= pos c -> pos c <= len ->
+  commit len start c k = Ok ({| tok_span := (start, pos c); tok_kind := k |}, c).
+Proof. intros H1 H2. unfold commit. rewrite make_span_ok by assumption. reflexivity. Qed.
+
+(* what a token scanner promises: the cursor moved forward from [c0] and the
+   token spans from [start] to the new position *)
+Definition tok_post (start : N) (c0 : cur) (p : token * cur) : Prop :=
+  ext c0 (snd p) /\ tok_span (fst p) = (start, pos (snd p)) /\ is_eof (tok_kind (fst p)) = false.
+
+Lemma good_commit start c0 c k : is_eof k = false -> ext c0 c -> start <= pos c0 -> wfc len c0 ->
+  good (tok_post start c0) (commit len start c k).
+Proof.
+  intros K E S W. pose proof (ext_pos _ _ E). pose proof (wfc_pos_le _ _ (ext_wfc _ _ _ E W)).
+  rewrite commit_ok by lia. cbn. split; [exact E|split; [reflexivity|exact K]].
+Qed.
+
+(* ---- comments ---- *)
+Lemma line_comment_ext : forall r ps, ext {| pos := ps; rest := r |} (line_comment_from ps r).
+Proof.
+  induction r as [|b r IH]; intros ps; cbn [line_comment_from]; [apply ext_refl|].
+  destruct (b =? 10).
+  - exists [b]. split; cbn; [reflexivity|lia].
+  - eapply ext_trans; [|apply IH]. exists [b]. split; cbn; [reflexivity|lia].
+Qed.
+
+Lemma good_single_line_comment start c0 c : ext c0 c -> start <= pos c0 -> wfc len c0 ->
+  good (tok_post start c0) (lex_single_line_comment len start c).
+Proof.
+  intros E S W. unfold lex_single_line_comment. apply good_commit; try assumption; [reflexivity|].
+  eapply ext_trans; [exact E|]. destruct c as [ps r]. apply line_comment_ext.
+Qed.
+
+Lemma block_comment_ext : forall r ps c', block_comment_from ps r = Some c' ->
+  ext {| pos := ps; rest := r |} c'.
+Proof.
+  induction r as [|b r IH]; intros ps c' H; cbn [block_comment_from] in H; [discriminate|].
+  destruct r as [|b' r'']; [discriminate|].
+  destruct ((b =? 42) && (b' =? 47)).
+  - inversion H; subst. exists [b; b']. split; cbn; [reflexivity|lia].
+  - eapply ext_trans; [|apply (IH _ _ H)]. exists [b]. split; cbn; [reflexivity|lia].
+Qed.
+
+Lemma good_multi_line_comment start c0 c : ext c0 c -> start <= pos c0 -> wfc len c0 ->
+  good (tok_post start c0) (lex_multi_line_comment len start c).
+Proof.
+  intros E S W. unfold lex_multi_line_comment.
+  destruct (block_comment_from (pos c) (rest c)) as [c'|] eqn:B.
+  - apply good_commit; try assumption; [reflexivity|]. eapply ext_trans; [exact E|].
+    destruct c as [ps r]. apply block_comment_ext, B.
+  - apply good_fail; [|lia]. pose proof (wfc_pos_le _ _ W). lia.
+Qed.
+
+(* ---- ASCII classes ---- *)
+Lemma mem_byte_in b l : mem_byte b l = true -> In b l.
+Proof.
+  unfold mem_byte. rewrite existsb_exists. intros [x [Hx E]]. apply N.eqb_eq in E. subst. exact Hx.
+Qed.
+
+Lemma all_lt_128 l : forallb (fun x => x <? 128) l = true -> forall b, In b l -> b < 128.
+Proof. rewrite forallb_forall. intros H b Hb. apply N.ltb_lt, H, Hb. Qed.
+
+Lemma ascii_str_ok site bs : Forall (fun b => b < 128) bs -> ascii_str site bs = Ok bs.
+Proof.
+  intros H. unfold ascii_str.
+  replace (forallb (fun b => b <? 128) bs) with true; [reflexivity|].
+  symmetry. apply forallb_forall. intros x Hx. apply N.ltb_lt. rewrite Forall_forall in H. auto.
+Qed.
+
+(* ---- operators ---- *)
+Definition ascii_bytes (l : list N) : Prop := Forall (fun b => b < 128) l.
+Lemma ascii_cons b l : b < 128 -> ascii_bytes l -> ascii_bytes (b :: l).
+Proof. intros H1 H2. constructor; assumption. Qed.
+Lemma ascii_one b : b < 128 -> ascii_bytes [b].
+Proof. intros H. constructor; [exact H|constructor]. Qed.
+
+Definition is_op_byte (b : N) : bool := mem_byte b op_sure_bytes || mem_byte b op_unsure_bytes.
+
+Lemma op_byte_ascii b : is_op_byte b = true -> b < 128.
+Proof.
+  unfold is_op_byte. rewrite orb_true_iff. intros [H|H]; apply mem_byte_in in H;
+    revert b H; apply all_lt_128; reflexivity.
+Qed.
+
+Lemma op_loop_spec : forall r ps acc sp sr sacc,
+  ext {| pos := sp; rest := sr |} {| pos := ps; rest := r |} ->
+  Forall (fun b => b < 128) acc -> Forall (fun b => b < 128) sacc ->
+  let '(c', racc) := op_loop r ps acc sp sr sacc in
+  ext {| pos := sp; rest := sr |} c' /\ Forall (fun b => b < 128) racc.
+Proof.
+  induction r as [|b r IH]; intros ps acc sp sr sacc E A SA; cbn [op_loop].
+  - destruct (op_forbidden_here []); split; try apply ext_refl; assumption.
+  - destruct (op_forbidden_here (b :: r)); [split; [apply ext_refl|assumption]|].
+    assert (Eb : ext {| pos := ps; rest := b :: r |} {| pos := ps + 1; rest := r |}).
+    { exists [b]. split; cbn; [reflexivity|lia]. }
+    destruct (mem_byte b op_sure_bytes) eqn:S1.
+    + assert (Hb : b < 128) by (apply op_byte_ascii; unfold is_op_byte; rewrite S1; reflexivity).
+      specialize (IH (ps + 1) (b :: acc) (ps + 1) r (b :: acc) (ext_refl _)
+                     (ascii_cons b acc Hb A) (ascii_cons b acc Hb A)).
+      destruct (op_loop r (ps + 1) (b :: acc) (ps + 1) r (b :: acc)) as [c' racc].
+      destruct IH as [IH1 IH2]. split; [|exact IH2].
+      eapply ext_trans; [exact E|]. eapply ext_trans; [exact Eb|exact IH1].
+    + destruct (mem_byte b op_unsure_bytes) eqn:S2.
+      * assert (Hb : b < 128) by (apply op_byte_ascii; unfold is_op_byte; rewrite S2; apply orb_true_r).
+        apply IH; [|apply ascii_cons; assumption|assumption].
+        eapply ext_trans; [exact E|exact Eb].
+      * split; [apply ext_refl|assumption].
+Qed.
+
+Lemma good_operator start c0 b0 c : ext c0 c -> start <= pos c0 -> wfc len c0 -> b0 < 128 ->
+  good (tok_post start c0) (lex_operator len start b0 c).
+Proof.
+  intros E S W Hb. unfold lex_operator.
+  pose proof (op_loop_spec (rest c) (pos c) [b0] (pos c) (rest c) [b0] (ext_refl _)
+                (ascii_one b0 Hb) (ascii_one b0 Hb)) as L.
+  destruct (op_loop (rest c) (pos c) [b0] (pos c) (rest c) [b0]) as [c' racc].
+  destruct L as [L1 L2].
+  assert (E' : ext c0 c') by (eapply ext_trans; [exact E|]; destruct c; exact L1).
+  destruct (assoc_bytes (rev racc) operator_table).
+  - apply good_commit; try assumption; reflexivity.
+  - rewrite ascii_str_ok by (apply Forall_rev; exact L2). cbn [obind]. apply good_commit; try assumption; reflexivity.
+Qed.
+
+(* ---- identifiers ---- *)
+Lemma ident_cont_ascii b : is_ident_cont b = true -> b < 128.
+Proof.
+  unfold is_ident_cont, in_range. rewrite !orb_true_iff, !andb_true_iff, !N.leb_le, N.eqb_eq. lia.
+Qed.
+
+Lemma good_ident start c0 b0 c : ext c0 c -> start <= pos c0 -> wfc len c0 -> b0 < 128 ->
+  good (tok_post start c0) (lex_ident len start b0 c).
+Proof.
+  intros E S W Hb. unfold lex_ident.
+  destruct (eat_while_ext is_ident_cont c) as [l [Hl El]].
+  rewrite (bytes_between_ext l _ _ El).
+  assert (E' : ext c0 (eat_while is_ident_cont c)) by (eapply ext_trans; [exact E|exists l; exact El]).
+  destruct (assoc_bytes (b0 :: l) keyword_table).
+  - apply good_commit; try assumption; reflexivity.
+  - rewrite ascii_str_ok.
+    + cbn [obind]. apply good_commit; try assumption; reflexivity.
+    + constructor; [exact Hb|]. eapply Forall_impl; [|exact Hl]. intros a Ha. apply ident_cont_ascii, Ha.
+Qed.
+
+(* ---- numbers ---- *)
+Lemma ext_step ps b r : ext {| pos := ps; rest := b :: r |} {| pos := ps + 1; rest := r |}.
+Proof. exists [b]. split; cbn; [reflexivity|lia]. Qed.
+
+Lemma good_num_stop st a c : 1 <= pos c -> (st = NExpSign -> 2 <= pos c) -> pos c <= len ->
+  good (fun p : nacc * cur => snd p = c) (num_stop len st a c).
+Proof.
+  intros P1 P2 PL. unfold num_stop.
+  destruct st as [[|]| |[|]| | |[|]]; cbn [good snd]; try reflexivity;
+    try (rewrite usub_ok by lia; cbn [obind]; apply good_fail; lia).
+  rewrite usub_ok by (specialize (P2 eq_refl); lia). cbn [obind]. apply good_fail; lia.
+Qed.
+
+Lemma good_num_loop lz : forall r ps st a,
+  1 <= ps -> (st = NExpSign -> 2 <= ps) -> wfc len {| pos := ps; rest := r |} ->
+  good (fun p : nacc * cur => ext {| pos := ps; rest := r |} (snd p)) (num_loop len lz r ps st a).
+Proof.
+  induction r as [|b r IH]; intros ps st a P1 P2 W; cbn [num_loop].
+  - eapply good_mono; [apply good_num_stop; cbn [pos]; try assumption; apply (wfc_pos_le _ _ W)|].
+    intros p Hp. rewrite Hp. apply ext_refl.
+  - assert (PL : ps + 1 <= len) by (unfold wfc in W; cbn [pos rest length] in W; lia).
+    destruct (num_step lz st a b) as [st' a'| |] eqn:St.
+    + eapply good_mono.
+      * apply IH; [lia| |].
+        -- intros _. lia.
+        -- unfold wfc in *. cbn [pos rest length] in *. lia.
+      * intros p Hp. eapply ext_trans; [apply ext_step|exact Hp].
+    + rewrite !usub_ok by lia. cbn [obind]. apply good_fail; lia.
+    + eapply good_mono; [apply good_num_stop; cbn [pos]; try assumption; lia|].
+      intros p Hp. rewrite Hp. apply ext_refl.
+Qed.
+
+Lemma good_number start c0 b0 c : ext c0 c -> start <= pos c0 -> wfc len c0 -> 1 <= pos c ->
+  is_digit b0 = true ->
+  good (tok_post start c0) (lex_number len start b0 c).
+Proof.
+  intros E S W PS D. unfold lex_number. rewrite D. cbn [negb].
+  eapply good_bind.
+  - apply (good_num_loop (b0 =? 48) (rest c) (pos c)); [lia|intros H; discriminate|].
+    destruct c; apply (ext_wfc _ _ _ E W).
+  - intros [a c'] Hp. cbn [snd] in Hp.
+    assert (E' : ext c0 c') by (eapply ext_trans; [exact E|]; destruct c; exact Hp).
+    destruct (eff_exp a).
+    + apply good_commit; try assumption; reflexivity.
+    + pose proof (ext_pos _ _ E'). pose proof (wfc_pos_le _ _ (ext_wfc _ _ _ E' W)).
+      apply good_fail; lia.
+Qed.
+
+(* ---- characters ---- *)
+Lemma good_eat_cont_any_char b0 c : b0 < 256 -> bytes_ok (rest c) ->
+  good (fun p : cur * option N => ext c (fst p)) (eat_cont_any_char b0 c).
+Proof.
+  intros Hb Hr. unfold eat_cont_any_char.
+  destruct (@decode_no_panic lex_error b0 (rest c) Hb Hr) as [k [oc [D Hk]]].
+  rewrite D. cbn [obind good fst].
+  exists (firstn k (rest c)). split; cbn [rest pos].
+  - symmetry. apply firstn_skipn.
+  - rewrite firstn_length_le by exact Hk. reflexivity.
+Qed.
+
+Lemma good_eat_any_char c : bytes_ok (rest c) ->
+  good (fun r : option (cur * option N) =>
+          match r with None => rest c = [] | Some p => sext c (fst p) end) (eat_any_char c).
+Proof.
+  intros Hr. unfold eat_any_char. destruct (eat_any_byte c) as [[b0 c1]|] eqn:B.
+  - pose proof (eat_any_byte_ext _ _ _ B) as E1.
+    assert (Hb : b0 < 256 /\ bytes_ok (rest c1)).
+    { destruct E1 as [H _]. rewrite H in Hr. inversion Hr; subst. split; assumption. }
+    eapply good_bind; [apply good_eat_cont_any_char; tauto|].
+    intros [c2 oc] Hp. cbn [fst] in Hp. cbn [good fst].
+    eapply sext_ext_trans; [|exact Hp]. eapply ext_by_sext; [|exact E1]. discriminate.
+  - cbn. apply eat_any_byte_none, B.
+Qed.
+
+(* ---- quoted strings ---- *)
+Lemma eat_codeunit_ext c : ext c (snd (eat_codeunit c)) /\
+  (forall cu, fst (eat_codeunit c) = Some cu -> pos (snd (eat_codeunit c)) = pos c + 4).
+Proof.
+  unfold eat_codeunit.
+  destruct (eat_map_byte hex_from_digit c) as [[d0 c1]|] eqn:M0; cbn [fst snd];
+    [|split; [apply ext_refl|discriminate]].
+  apply eat_map_byte_ext in M0 as [x0 [_ E0]].
+  destruct (eat_map_byte hex_from_digit c1) as [[d1 c2]|] eqn:M1; cbn [fst snd];
+    [|split; [exists [x0]; exact E0|discriminate]].
+  apply eat_map_byte_ext in M1 as [x1 [_ E1]].
+  pose proof (ext_by_trans _ _ _ _ _ E0 E1) as E01.
+  destruct (eat_map_byte hex_from_digit c2) as [[d2 c3]|] eqn:M2; cbn [fst snd];
+    [|split; [eexists; exact E01|discriminate]].
+  apply eat_map_byte_ext in M2 as [x2 [_ E2]].
+  pose proof (ext_by_trans _ _ _ _ _ E01 E2) as E012.
+  destruct (eat_map_byte hex_from_digit c3) as [[d3 c4]|] eqn:M3; cbn [fst snd];
+    [|split; [eexists; exact E012|discriminate]].
+  apply eat_map_byte_ext in M3 as [x3 [_ E3]].
+  pose proof (ext_by_trans _ _ _ _ _ E012 E3) as E0123.
+  split; [eexists; exact E0123|]. intros cu _. destruct E0123 as [_ P]. cbn in P. lia.
+Qed.
+
+Lemma good_escape start c1 : wfc len c1 -> bytes_ok (rest c1) -> start <= pos c1 -> 1 <= pos c1 ->
+  good (fun p : N * cur => ext c1 (snd p)) (lex_escape len start c1).
+Proof.
+  intros W B S P1. unfold lex_escape. rewrite usub_ok by lia. cbn [obind].
+  pose proof (wfc_pos_le _ _ W) as PL.
+  destruct (eat_map_byte (fun b => assoc_byte b escape_table) c1) as [[ch c2]|] eqn:M.
+  { apply eat_map_byte_ext in M as [x [_ E]]. cbn [good snd]. exists [x]. exact E. }
+  destruct (eat_byte 117 c1) as [c2|] eqn:U.
+  { apply eat_byte_ext in U. pose proof (ext_by_ext _ _ _ U) as E2.
+    destruct (eat_codeunit_ext c2) as [E3 P3].
+    destruct (eat_codeunit c2) as [[cu1|] c3]; cbn [fst snd] in *.
+    2:{ pose proof (ext_trans _ _ _ E2 E3) as E13. pose proof (ext_pos _ _ E13).
+        pose proof (wfc_pos_le _ _ (ext_wfc _ _ _ E13 W)). apply good_fail; lia. }
+    pose proof (ext_trans _ _ _ E2 E3) as E13.
+    specialize (P3 cu1 eq_refl).
+    assert (P13 : pos c3 = pos c1 + 5) by (destruct U as [_ PU]; cbn in PU; lia).
+    destruct (if is_surrogate cu1 then eat_slice [92; 117] c3 else None) as [c4|] eqn:SL.
+    - assert (E4 : ext_by [92; 117] c3 c4).
+      { destruct (is_surrogate cu1); [|discriminate]. apply eat_slice_ext, SL. }
+      pose proof (ext_trans _ _ _ E13 (ext_by_ext _ _ _ E4)) as E14.
+      destruct (eat_codeunit_ext c4) as [E5 P5].
+      destruct (eat_codeunit c4) as [[cu2|] c5]; cbn [fst snd] in *.
+      + pose proof (ext_trans _ _ _ E14 E5) as E15.
+        destruct (decode_utf16_pair cu1 cu2); [exact E15|].
+        pose proof (ext_pos _ _ E15). pose proof (wfc_pos_le _ _ (ext_wfc _ _ _ E15 W)).
+        apply good_fail; lia.
+      + pose proof (ext_trans _ _ _ E14 E5) as E15.
+        pose proof (ext_pos _ _ E5). pose proof (wfc_pos_le _ _ (ext_wfc _ _ _ E15 W)).
+        destruct E4 as [_ P4]. cbn in P4. apply good_fail; lia.
+    - destruct (is_scalar cu1); [exact E13|].
+      pose proof (wfc_pos_le _ _ (ext_wfc _ _ _ E13 W)). apply good_fail; lia. }
+  eapply good_bind; [apply good_eat_any_char, B|].
+  intros [[c2 oc]|] Hp; cbn [fst] in Hp.
+  - pose proof (sext_ext _ _ Hp) as E2. pose proof (ext_pos _ _ E2).
+    pose proof (wfc_pos_le _ _ (ext_wfc _ _ _ E2 W)). apply good_fail; lia.
+  - apply good_fail; lia.
+Qed.
+
+Lemma good_quoted_loop start delim : forall fuel c,
+  (length (rest c) < fuel)%nat -> wfc len c -> bytes_ok (rest c) -> start <= pos c ->
+  good (fun p : list N * cur => sext c (snd p)) (quoted_loop len fuel start delim c).
+Proof.
+  induction fuel as [|f IH]; intros c F W B S; [lia|]. cbn [quoted_loop].
+  pose proof (wfc_pos_le _ _ W) as PL.
+  destruct (eat_byte delim c) as [c1|] eqn:D.
+  { apply eat_byte_ext in D. cbn [good snd]. eapply ext_by_sext; [|exact D]. discriminate. }
+  destruct (eat_byte 92 c) as [c1|] eqn:BS.
+  { apply eat_byte_ext in BS. assert (S1 : sext c c1) by (eapply ext_by_sext; [|exact BS]; discriminate).
+    pose proof (sext_ext _ _ S1) as E1. pose proof (sext_pos _ _ S1).
+    eapply good_bind; [apply (good_escape start c1); [apply (ext_wfc _ _ _ E1 W)|apply (ext_bytes _ _ E1 B)|lia|lia]|].
+    intros [ch c2] E2. cbn [snd] in E2.
+    pose proof (sext_ext_trans _ _ _ S1 E2) as S2.
+    eapply good_bind.
+    - apply (IH c2); [pose proof (sext_len _ _ S2); lia|apply (ext_wfc _ _ _ (sext_ext _ _ S2) W)
+                      |apply (ext_bytes _ _ (sext_ext _ _ S2) B)|pose proof (sext_pos _ _ S2); lia].
+    - intros [s c3] S3. cbn [snd good] in *. eapply sext_ext_trans; [exact S2|apply sext_ext, S3]. }
+  eapply good_bind; [apply good_eat_any_char, B|].
+  intros [[c1 oc]|] Hp; cbn [fst] in Hp.
+  - eapply good_bind.
+    + apply (IH c1); [pose proof (sext_len _ _ Hp); lia|apply (ext_wfc _ _ _ (sext_ext _ _ Hp) W)
+                      |apply (ext_bytes _ _ (sext_ext _ _ Hp) B)|pose proof (sext_pos _ _ Hp); lia].
+    + intros [s c3] S3. cbn [snd good] in *. eapply sext_ext_trans; [exact Hp|apply sext_ext, S3].
+  - apply good_fail; lia.
+Qed.
+
+Lemma good_quoted_string start delim c0 c : ext c0 c -> start <= pos c0 -> wfc len c0 ->
+  bytes_ok (rest c0) ->
+  good (tok_post start c0) (lex_quoted_string len start delim c).
+Proof.
+  intros E S W B. unfold lex_quoted_string.
+  eapply good_bind.
+  - apply good_quoted_loop; [lia|apply (ext_wfc _ _ _ E W)|apply (ext_bytes _ _ E B)|pose proof (ext_pos _ _ E); lia].
+  - intros [s c'] S'. cbn [snd] in S'. apply good_commit; try assumption; [reflexivity|].
+    eapply ext_trans; [exact E|apply sext_ext, S'].
+Qed.
+
+(* ---- verbatim strings ---- *)
+Lemma good_verbatim_loop start delim : forall fuel c,
+  (length (rest c) < fuel)%nat -> wfc len c -> bytes_ok (rest c) -> start <= pos c ->
+  good (fun p : list N * cur => sext c (snd p)) (verbatim_loop len fuel start delim c).
+Proof.
+  induction fuel as [|f IH]; intros c F W B S; [lia|]. cbn [verbatim_loop].
+  pose proof (wfc_pos_le _ _ W) as PL.
+  destruct (eat_byte delim c) as [c1|] eqn:D.
+  { apply eat_byte_ext in D. assert (S1 : sext c c1) by (eapply ext_by_sext; [|exact D]; discriminate).
+    destruct (eat_byte delim c1) as [c2|] eqn:D2; [|exact S1].
+    apply eat_byte_ext in D2.
+    pose proof (sext_ext_trans _ _ _ S1 (ext_by_ext _ _ _ D2)) as S2.
+    eapply good_bind.
+    - apply (IH c2); [pose proof (sext_len _ _ S2); lia|apply (ext_wfc _ _ _ (sext_ext _ _ S2) W)
+                      |apply (ext_bytes _ _ (sext_ext _ _ S2) B)|pose proof (sext_pos _ _ S2); lia].
+    - intros [s c3] S3. cbn [snd good] in *. eapply sext_ext_trans; [exact S2|apply sext_ext, S3]. }
+  eapply good_bind; [apply good_eat_any_char, B|].
+  intros [[c1 oc]|] Hp; cbn [fst] in Hp.
+  - eapply good_bind.
+    + apply (IH c1); [pose proof (sext_len _ _ Hp); lia|apply (ext_wfc _ _ _ (sext_ext _ _ Hp) W)
+                      |apply (ext_bytes _ _ (sext_ext _ _ Hp) B)|pose proof (sext_pos _ _ Hp); lia].
+    + intros [s c3] S3. cbn [snd good] in *. eapply sext_ext_trans; [exact Hp|apply sext_ext, S3].
+  - apply good_fail; lia.
+Qed.
+
+Lemma good_verbatim_string start delim c0 c : ext c0 c -> start <= pos c0 -> wfc len c0 ->
+  bytes_ok (rest c0) ->
+  good (tok_post start c0) (lex_verbatim_string len start delim c).
+Proof.
+  intros E S W B. unfold lex_verbatim_string.
+  eapply good_bind.
+  - apply good_verbatim_loop; [lia|apply (ext_wfc _ _ _ E W)|apply (ext_bytes _ _ E B)|pose proof (ext_pos _ _ E); lia].
+  - intros [s c'] S'. cbn [snd] in S'. apply good_commit; try assumption; [reflexivity|].
+    eapply ext_trans; [exact E|apply sext_ext, S'].
+Qed.
+
+(* ---- text blocks ---- *)
+Definition ends_lf (s : list N) : Prop := exists s', s = s' ++ [10].
+
+Lemma ends_lf_cons x s : ends_lf s -> ends_lf (x :: s).
+Proof. intros [s' ->]. exists (x :: s'). reflexivity. Qed.
+
+Lemma ends_lf_app a s : ends_lf s -> ends_lf (a ++ s).
+Proof. intros [s' ->]. exists (a ++ s'). rewrite app_assoc. reflexivity. Qed.
+
+Lemma strip_last_lf_ok s : ends_lf s -> exists s', s = s' ++ [10] /\ strip_last_lf s = Ok s'.
+Proof.
+  intros [s' ->]. exists s'. split; [reflexivity|].
+  unfold strip_last_lf. rewrite rev_app_distr. cbn [rev app]. rewrite rev_involutive. reflexivity.
+Qed.
+
+Lemma tb_blank_lines_spec : forall r ps,
+  ext {| pos := ps; rest := r |} (snd (tb_blank_lines ps r)) /\
+  (fst (tb_blank_lines ps r) = [] \/ ends_lf (fst (tb_blank_lines ps r))).
+Proof.
+  fix IH 1. intros r ps. destruct r as [|b r]; [cbn; split; [apply ext_refl|left; reflexivity]|].
+  cbn [tb_blank_lines].
+  destruct (N.eq_dec b 10) as [->|N10].
+  - specialize (IH r (ps + 1)). destruct (tb_blank_lines (ps + 1) r) as [s c]. cbn [fst snd] in *.
+    destruct IH as [E H]. split.
+    + eapply ext_trans; [apply ext_step|exact E].
+    + right. destruct H as [->|H]; [exists []; reflexivity|apply ends_lf_cons, H].
+  - destruct (N.eq_dec b 13) as [->|N13].
+    + destruct r as [|b' r'']; [cbn; split; [apply ext_refl|left; reflexivity]|].
+      destruct (N.eq_dec b' 10) as [->|N10'].
+      * specialize (IH r'' (ps + 2)). destruct (tb_blank_lines (ps + 2) r'') as [s c]. cbn [fst snd] in *.
+        destruct IH as [E H]. split.
+        -- eapply ext_trans; [|exact E]. exists [13; 10]. split; cbn; [reflexivity|lia].
+        -- right. destruct H as [->|H]; [exists [13]; reflexivity|apply ends_lf_cons, ends_lf_cons, H].
+      * replace (match b' with 10 => _ | _ => _ end) with (@nil N, {| pos := ps; rest := 13 :: b' :: r'' |}).
+        -- cbn. split; [apply ext_refl|left; reflexivity].
+        -- destruct b' as [|p]; [reflexivity|]. do 4 (destruct p; try reflexivity). congruence.
+    + match goal with |- context[match b with _ => _ end] =>
+        replace (match b with 10 => _ | 13 => _ | _ => _ end) with (@nil N, {| pos := ps; rest := b :: r |}) end.
+      * cbn. split; [apply ext_refl|left; reflexivity].
+      * destruct b as [|p]; [reflexivity|]. do 4 (destruct p; try reflexivity); congruence.
+Qed.
+
+Lemma good_tb_first_loop : forall fuel c,
+  (length (rest c) < fuel)%nat -> wfc len c ->
+  good (fun p : list N * list N * cur => ext c (snd p)) (tb_first_loop len fuel c).
+Proof.
+  induction fuel as [|f IH]; intros c F W; [lia|]. cbn [tb_first_loop].
+  destruct (eat_while_ext is_blank c) as [l [_ E1]].
+  rewrite (bytes_between_ext l _ _ E1).
+  set (c1 := eat_while is_blank c) in *.
+  assert (E2 : ext c1 (snd (match eat_byte 13 c1 with Some c2 => ([13], c2) | None => ([], c1) end))).
+  { destruct (eat_byte 13 c1) as [c2|] eqn:R; cbn [snd]; [|apply ext_refl].
+    apply eat_byte_ext in R. exists [13]. exact R. }
+  destruct (match eat_byte 13 c1 with Some c2 => ([13], c2) | None => ([], c1) end) as [cr c2].
+  cbn [snd] in E2.
+  pose proof (ext_trans _ _ _ (ext_by_ext _ _ _ E1) E2) as E02.
+  destruct l as [|x l].
+  - destruct (eat_byte 10 c2) as [c3|] eqn:LF.
+    + apply eat_byte_ext in LF.
+      assert (S3 : sext c c3) by (eapply ext_sext_trans; [exact E02|]; eapply ext_by_sext; [|exact LF]; discriminate).
+      eapply good_bind.
+      * apply (IH c3); [pose proof (sext_len _ _ S3); lia|apply (ext_wfc _ _ _ (sext_ext _ _ S3) W)].
+      * intros [[s p] c4] E4. cbn [snd good] in *. eapply ext_trans; [apply sext_ext, S3|exact E4].
+    + pose proof (ext_pos _ _ (ext_by_ext _ _ _ E1)).
+      pose proof (wfc_pos_le _ _ (ext_wfc _ _ _ (ext_by_ext _ _ _ E1) W)). apply good_fail; lia.
+  - cbn [good snd]. exact E02.
+Qed.
+
+Lemma good_tb_body_loop start prefix : forall fuel c,
+  (length (rest c) < fuel)%nat -> wfc len c -> bytes_ok (rest c) -> start <= pos c ->
+  good (fun p : list N * cur => sext c (snd p) /\ ends_lf (fst p)) (tb_body_loop len fuel start prefix c).
+Proof.
+  induction fuel as [|f IH]; intros c F W B S; [lia|]. cbn [tb_body_loop].
+  pose proof (wfc_pos_le _ _ W) as PL.
+  destruct (eat_byte 10 c) as [c1|] eqn:LF.
+  { apply eat_byte_ext in LF. assert (S1 : sext c c1) by (eapply ext_by_sext; [|exact LF]; discriminate).
+    destruct (tb_blank_lines_spec (rest c1) (pos c1)) as [E2 HB].
+    destruct (tb_blank_lines (pos c1) (rest c1)) as [blank c2]. cbn [fst snd] in *.
+    assert (S2 : sext c c2) by (eapply sext_ext_trans; [exact S1|]; destruct c1; exact E2).
+    assert (HL : ends_lf (10 :: blank)).
+    { destruct HB as [->|HB]; [exists []; reflexivity|apply ends_lf_cons, HB]. }
+    destruct (eat_slice prefix c2) as [c3|] eqn:PF.
+    - apply eat_slice_ext in PF.
+      pose proof (sext_ext_trans _ _ _ S2 (ext_by_ext _ _ _ PF)) as S3.
+      eapply good_bind.
+      + apply (IH c3); [pose proof (sext_len _ _ S3); lia|apply (ext_wfc _ _ _ (sext_ext _ _ S3) W)
+                        |apply (ext_bytes _ _ (sext_ext _ _ S3) B)|pose proof (sext_pos _ _ S3); lia].
+      + intros [s c4] [S4 L4]. cbn [fst snd good] in *. split.
+        * eapply sext_ext_trans; [exact S3|apply sext_ext, S4].
+        * apply ends_lf_cons, ends_lf_app, L4.
+    - destruct (eat_while_ext is_blank c2) as [l [_ E3]].
+      set (c3 := eat_while is_blank c2) in *.
+      pose proof (sext_ext_trans _ _ _ S2 (ext_by_ext _ _ _ E3)) as S3.
+      destruct (eat_slice [124; 124; 124] c3) as [c4|] eqn:T.
+      + apply eat_slice_ext in T. cbn [good fst snd]. split; [|exact HL].
+        eapply sext_ext_trans; [exact S3|exists [124; 124; 124]; exact T].
+      + pose proof (ext_pos _ _ (ext_by_ext _ _ _ E3)).
+        pose proof (wfc_pos_le _ _ (ext_wfc _ _ _ (sext_ext _ _ S3) W)). apply good_fail; lia. }
+  eapply good_bind; [apply good_eat_any_char, B|].
+  intros [[c1 oc]|] Hp; cbn [fst] in Hp.
+  - eapply good_bind.
+    + apply (IH c1); [pose proof (sext_len _ _ Hp); lia|apply (ext_wfc _ _ _ (sext_ext _ _ Hp) W)
+                      |apply (ext_bytes _ _ (sext_ext _ _ Hp) B)|pose proof (sext_pos _ _ Hp); lia].
+    + intros [s c3] [S3 L3]. cbn [fst snd good] in *. split.
+      * eapply sext_ext_trans; [exact Hp|apply sext_ext, S3].
+      * apply ends_lf_cons, L3.
+  - apply good_fail; lia.
+Qed.
+
+Lemma good_text_block start c0 c : ext c0 c -> start <= pos c0 -> wfc len c0 -> bytes_ok (rest c0) ->
+  good (tok_post start c0) (lex_text_block len start c).
+Proof.
+  intros E S W B. unfold lex_text_block.
+  assert (E1 : ext c (snd (match eat_byte 45 c with Some c1 => (true, c1) | None => (false, c) end))).
+  { destruct (eat_byte 45 c) as [c1|] eqn:R; cbn [snd]; [|apply ext_refl].
+    apply eat_byte_ext in R. exists [45]. exact R. }
+  destruct (match eat_byte 45 c with Some c1 => (true, c1) | None => (false, c) end) as [strip c1].
+  cbn [snd] in E1.
+  destruct (eat_while_ext is_blank_cr c1) as [l [_ E2]].
+  set (c2 := eat_while is_blank_cr c1) in *.
+  pose proof (ext_trans _ _ _ E (ext_trans _ _ _ E1 (ext_by_ext _ _ _ E2))) as E02.
+  pose proof (ext_pos _ _ E02). pose proof (wfc_pos_le _ _ (ext_wfc _ _ _ E02 W)).
+  destruct (eat_byte 10 c2) as [c3|] eqn:LF; [|apply good_fail; lia].
+  apply eat_byte_ext in LF. pose proof (ext_trans _ _ _ E02 (ext_by_ext _ _ _ LF)) as E03.
+  eapply good_bind; [apply good_tb_first_loop; [lia|apply (ext_wfc _ _ _ E03 W)]|].
+  intros [[s1 prefix] c4] E4. cbn [snd] in E4.
+  pose proof (ext_trans _ _ _ E03 E4) as E04.
+  eapply good_bind.
+  - apply good_tb_body_loop; [lia|apply (ext_wfc _ _ _ E04 W)|apply (ext_bytes _ _ E04 B)
+                              |pose proof (ext_pos _ _ E04); lia].
+  - intros [s2 c5] [S5 L5]. cbn [fst snd] in *.
+    pose proof (ext_trans _ _ _ E04 (sext_ext _ _ S5)) as E05.
+    destruct strip.
+    + destruct (strip_last_lf_ok (s1 ++ s2) (ends_lf_app _ _ L5)) as [s' [_ ->]]. cbn [obind].
+      apply good_commit; try assumption; reflexivity.
+    + cbn [obind]. apply good_commit; try assumption; reflexivity.
+Qed.
+
+(* ---- next_token ---- *)
+Definition next_post (c : cur) (p : token * cur) : Prop :=
+  tok_span (fst p) = (pos c, pos (snd p)) /\
+  (if is_eof (tok_kind (fst p)) then rest c = [] /\ snd p = c else sext c (snd p)).
+
+Lemma tok_post_next c c1 p : sext c c1 -> tok_post (pos c) c1 p -> next_post c p.
+Proof.
+  intros S [E [Sp K]]. split; [exact Sp|]. rewrite K. eapply sext_ext_trans; eassumption.
+Qed.
+
+Lemma ident_start_ascii b : is_ident_start b = true -> b < 128.
+Proof.
+  unfold is_ident_start, in_range. rewrite !orb_true_iff, !andb_true_iff, !N.leb_le, N.eqb_eq. lia.
+Qed.
+
+Lemma good_next_token c : wfc len c -> bytes_ok (rest c) -> good (next_post c) (next_token len c).
+Proof.
+  intros W B. unfold next_token. pose proof (wfc_pos_le _ _ W) as PL.
+  destruct (eat_any_byte c) as [[b c1]|] eqn:AB.
+  2:{ rewrite commit_ok by lia. cbn. split; [reflexivity|]. split; [apply eat_any_byte_none, AB|reflexivity]. }
+  pose proof (eat_any_byte_ext _ _ _ AB) as EB.
+  assert (S1 : sext c c1) by (eapply ext_by_sext; [|exact EB]; discriminate).
+  pose proof (sext_pos _ _ S1) as P1. pose proof (sext_ext _ _ S1) as E1.
+  pose proof (ext_wfc _ _ _ E1 W) as W1. pose proof (ext_bytes _ _ E1 B) as B1.
+  assert (Hb : b < 256).
+  { destruct EB as [H _]. rewrite H in B. inversion B; assumption. }
+  assert (TP : forall r, good (tok_post (pos c) c1) r -> good (next_post c) r).
+  { intros r G. eapply good_mono; [exact G|]. intros p. apply tok_post_next, S1. }
+  destruct (assoc_byte b single_table).
+  { apply TP, good_commit; [reflexivity|apply ext_refl|lia|exact W1]. }
+  destruct (N.eqb_spec b 47) as [->|N47].
+  { destruct (eat_byte 47 c1) as [c2|] eqn:S2.
+    { apply eat_byte_ext, ext_by_ext in S2. apply TP, good_single_line_comment; [exact S2|lia|exact W1]. }
+    destruct (eat_byte 42 c1) as [c2|] eqn:S3.
+    { apply eat_byte_ext, ext_by_ext in S3. apply TP, good_multi_line_comment; [exact S3|lia|exact W1]. }
+    apply TP, good_operator; [apply ext_refl|lia|exact W1|lia]. }
+  destruct (N.eqb_spec b 124) as [->|N124].
+  { destruct (eat_slice [124; 124] c1) as [c2|] eqn:S2.
+    { apply eat_slice_ext, ext_by_ext in S2. apply TP, good_text_block; [exact S2|lia|exact W1|exact B1]. }
+    apply TP, good_operator; [apply ext_refl|lia|exact W1|lia]. }
+  destruct (mem_byte b op_start_bytes) eqn:OS.
+  { apply TP, good_operator; [apply ext_refl|lia|exact W1|].
+    apply mem_byte_in in OS. exact (all_lt_128 op_start_bytes eq_refl b OS). }
+  destruct (is_ws b).
+  { apply TP, good_commit; [reflexivity| |lia|exact W1].
+    destruct (eat_while_ext is_ws c1) as [l [_ E]]. exists l. exact E. }
+  destruct (N.eqb_spec b 35) as [->|N35].
+  { apply TP, good_single_line_comment; [apply ext_refl|lia|exact W1]. }
+  destruct (is_digit b) eqn:DG.
+  { apply TP, good_number; [apply ext_refl|lia|exact W1|lia|exact DG]. }
+  destruct (is_ident_start b) eqn:IS.
+  { apply TP, good_ident; [apply ext_refl|lia|exact W1|apply ident_start_ascii, IS]. }
+  destruct (N.eqb_spec b 64) as [->|N64].
+  { destruct (eat_byte 39 c1) as [c2|] eqn:Q1.
+    { apply eat_byte_ext, ext_by_ext in Q1. apply TP, good_verbatim_string; [exact Q1|lia|exact W1|exact B1]. }
+    destruct (eat_byte 34 c1) as [c2|] eqn:Q2.
+    { apply eat_byte_ext, ext_by_ext in Q2. apply TP, good_verbatim_string; [exact Q2|lia|exact W1|exact B1]. }
+    pose proof (wfc_pos_le _ _ W1). apply good_fail; lia. }
+  destruct (N.eqb_spec b 39) as [->|N39].
+  { apply TP, good_quoted_string; [apply ext_refl|lia|exact W1|exact B1]. }
+  destruct (N.eqb_spec b 34) as [->|N34].
+  { apply TP, good_quoted_string; [apply ext_refl|lia|exact W1|exact B1]. }
+  eapply good_bind; [apply good_eat_cont_any_char; [exact Hb|exact B1]|].
+  intros [c2 oc] E2. cbn [fst] in E2.
+  pose proof (ext_pos _ _ E2). pose proof (wfc_pos_le _ _ (ext_wfc _ _ _ E2 W1)).
+  destruct oc; apply good_fail; lia.
+Qed.
+
+(* ---- the token loop ---- *)
+(* token spans from [at]: contiguous, non-empty, not EOF, until one EOF token at (len, len) *)
+Fixpoint tiles_from (at_ : N) (toks : list token) : Prop :=
+  match toks with
+  | [] => False
+  | t :: ts =>
+      if is_eof (tok_kind t) then ts = [] /\ tok_span t = (len, len) /\ at_ = len
+      else exists e, tok_span t = (at_, e) /\ at_ < e /\ tiles_from e ts
+  end.
+
+Lemma good_lex_loop : forall fuel c,
+  (length (rest c) < fuel)%nat -> wfc len c -> bytes_ok (rest c) ->
+  good (tiles_from (pos c)) (lex_loop len fuel true c).
+Proof.
+  induction fuel as [|f IH]; intros c F W B; [lia|]. cbn [lex_loop].
+  eapply good_bind; [apply good_next_token; assumption|].
+  intros [t c'] [Sp K]. cbn [fst snd] in *.
+  destruct (is_eof (tok_kind t)) eqn:EO.
+  - destruct K as [R ->]. cbn [good tiles_from]. rewrite EO.
+    assert (pos c = len) by (unfold wfc in W; rewrite R in W; cbn in W; lia).
+    split; [reflexivity|]. split; [rewrite Sp; congruence|assumption].
+  - eapply good_bind.
+    + apply (IH c'); [pose proof (sext_len _ _ K); lia|apply (ext_wfc _ _ _ (sext_ext _ _ K) W)
+                      |apply (ext_bytes _ _ (sext_ext _ _ K) B)].
+    + intros ts T. cbn [orb good tiles_from]. rewrite EO. exists (pos c').
+      split; [exact Sp|]. split; [apply sext_pos, K|exact T].
+Qed.
+
+End Specs.
+
+(* ------------------------------------------------------------------ *)
+(* headline statements                                                 *)
+
+Definition input_len (input : list N) : N := N.of_nat (length input).
+
+Theorem lex_all_good input : bytes_ok input ->
+  good (input_len input) (tiles_from (input_len input) 0) (lex_all true input).
+Proof.
+  intros B. unfold lex_all.
+  apply (good_lex_loop (input_len input) (S (length input)) {| pos := 0; rest := input |});
+    cbn [rest pos]; [lia|unfold wfc, input_len; cbn; lia|exact B].
+Qed.
+
+(* spans (a0,a1) (a1,a2) ... from a to b *)
+Inductive tiles : N -> N -> list span -> Prop :=
+| tiles_nil a : tiles a a []
+| tiles_cons a m b l : a <= m -> tiles m b l -> tiles a b ((a, m) :: l).
+
+Definition eof_at (n : N) : token := {| tok_span := (n, n); tok_kind := TEndOfFile |}.
+Definition nonempty (s : span) : Prop := fst s < snd s.
+
+Lemma is_eof_inv k : is_eof k = true -> k = TEndOfFile.
+Proof. destruct k; simpl; congruence. Qed.
+
+Lemma tiles_from_shape len : forall toks at_, tiles_from len at_ toks ->
+  tiles at_ len (map tok_span toks ++ []) /\
+  exists pre, toks = pre ++ [eof_at len] /\
+              Forall (fun t => is_eof (tok_kind t) = false /\ nonempty (tok_span t)) pre.
+Proof.
+  induction toks as [|t ts IH]; intros at_ H; cbn [tiles_from] in H; [contradiction|].
+  destruct (is_eof (tok_kind t)) eqn:EO.
+  - destruct H as [-> [Sp ->]]. split.
+    + cbn. rewrite Sp. apply tiles_cons; [lia|apply tiles_nil].
+    + exists []. split; [|constructor]. destruct t as [sp k]. cbn in *. apply is_eof_inv in EO. subst. reflexivity.
+  - destruct H as [e [Sp [Lt T]]]. destruct (IH e T) as [T1 [pre [-> F]]]. split.
+    + cbn [map app]. rewrite Sp. apply tiles_cons; [lia|exact T1].
+    + exists (t :: pre). split; [reflexivity|]. constructor; [|exact F].
+      split; [exact EO|]. unfold nonempty. rewrite Sp. exact Lt.
+Qed.
+
+Theorem lex_tiles input toks : bytes_ok input -> lex_all true input = Ok toks ->
+  tiles 0 (input_len input) (map tok_span toks) /\
+  exists pre, toks = pre ++ [eof_at (input_len input)] /\
+              Forall (fun t => is_eof (tok_kind t) = false /\ nonempty (tok_span t)) pre.
+Proof.
+  intros B H. pose proof (lex_all_good input B) as G. rewrite H in G. cbn in G.
+  destruct (tiles_from_shape _ _ _ G) as [T R]. rewrite app_nil_r in T. split; assumption.
+Qed.
+
+Lemma lex_all_false_true input :
+  match lex_all false input with
+  | Ok _ => exists toks, lex_all true input = Ok toks
+  | Err e => lex_all true input = Err e
+  | Panic s => lex_all true input = Panic s
+  | OutOfFuel => lex_all true input = OutOfFuel
+  end.
+Proof.
+  rewrite lex_filter. destruct (lex_all true input); cbn; eauto.
+Qed.
+
+Theorem lex_error_located keep input e : bytes_ok input -> lex_all keep input = Err e ->
+  located (input_len input) e.
+Proof.
+  intros B H. pose proof (lex_all_good input B) as G.
+  destruct keep.
+  - rewrite H in G. exact G.
+  - pose proof (lex_all_false_true input) as FT. rewrite H in FT. rewrite FT in G. exact G.
+Qed.
+
+Theorem fuel_sufficient keep input : bytes_ok input -> lex_all keep input <> OutOfFuel.
+Proof.
+  intros B H. pose proof (lex_all_good input B) as G.
+  destruct keep.
+  - rewrite H in G. exact G.
+  - pose proof (lex_all_false_true input) as FT. rewrite H in FT. rewrite FT in G. exact G.
+Qed.
+
+Theorem lex_no_panic keep input site : bytes_ok input -> lex_all keep input <> Panic site.
+Proof.
+  intros B H. pose proof (lex_all_good input B) as G.
+  destruct keep.
+  - rewrite H in G. exact G.
+  - pose proof (lex_all_false_true input) as FT. rewrite H in FT. rewrite FT in G. exact G.
+Qed.
+
+(* every lexing run ends in exactly one of: a tiling token list, or one located error *)
+Theorem lex_total keep input : bytes_ok input ->
+  (exists toks, lex_all keep input = Ok toks) \/
+  (exists e, lex_all keep input = Err e /\ located (input_len input) e).
+Proof.
+  intros B. destruct (lex_all keep input) as [toks|e|s|] eqn:H.
+  - left. eauto.
+  - right. exists e. split; [reflexivity|]. eapply lex_error_located; eassumption.
+  - exfalso. eapply lex_no_panic; eassumption.
+  - exfalso. eapply fuel_sufficient; eassumption.
+Qed.
